@@ -299,17 +299,23 @@ def diagnose(E, f, what):
                 causes.add("atom-does-not-round-trip:" + kind)
     for (pos, _, _), c in counts.items():
         probe = [(c, H)] if pos == "atom" else [(c, [(1, H), (1, O)])]
-        p = None
+        p = back = None
         try:
             p = str(E.formula(probe))
-            ok = same(E, probe, E.formula(p).structure) is None
+            gs = E.formula(p).structure
+            ok = same(E, probe, gs) is None
+            back = gs[0][0] if len(gs) == 1 else None
         except Exception:
             ok = False
         if not ok:
             if p and _EXPONENT.search(p):
                 causes.add("count-printed-in-exponent-notation")
+            elif back is None:
+                causes.add("count-printed-unreadable")
+            elif isinstance(back, (int, float)) and abs(back - c) <= 0.01 * c:
+                causes.add("count-printed-with-less-than-six-digits")
             else:
-                causes.add("%s-count-does-not-round-trip:%s" % (pos, count_class(c)))
+                causes.add("count-changed")
     if not causes:
         causes.add({"rejected": "printed-string-rejected", "atom": "atom-changed", "count": "count-changed",
                     "nesting": "nesting-changed"}[what] + ":only-in-context")
@@ -425,18 +431,26 @@ def _trivial(E, f):
                                             and E.akey(st[0][1])[1:] == (0, 0)))
 
 
-def check(E, acc, f, case, twin=True):
-    """Judge one produced formula (memoised on the printer input).  Returns True when silent."""
-    acc.transitions += 1
+def check(E, acc, f, case, twin=False):
+    """Judge one produced formula (memoised on the printer input).  Returns True when silent.
+    twin: f is the named copy of a formula already judged (counted apart, not as a state)."""
     key = state_key(E, f)
     found = E.memo.get(key)
+    if twin:
+        acc.count("named_copies_produced")
+    else:
+        acc.transitions += 1
     if found is None:
         found = E.memo[key] = judge(E, f)
-        acc.evaluations += 1
-        triv = _trivial(E, f)
-        E.keys[hash(key)] = not triv
+        if twin:
+            acc.count("named_copies_judged")
+        else:
+            acc.evaluations += 1
+            E.keys[hash(key)] = not _trivial(E, f)
         if found:
             acc.outcome("VIOLATION:" + found[0][0].split(":")[0])
+        elif twin:
+            acc.outcome("named-copy:prints-name")
         elif f.name:
             acc.outcome("named:prints-name")
         else:
@@ -450,21 +464,20 @@ def check(E, acc, f, case, twin=True):
             for (pos, _, _), c in counts.items():
                 if c != 1:
                     acc.outcome("count:%s:%s" % (pos, count_class(c)))
-        if len(E.memo) % 4093 == 1:
+        if not twin and hash(key) % 20011 == 7:
             acc.sample(dict(case=case, str=str(f) if not found else None))
-    else:
+    elif not twin:
         acc.count("merged_arrivals")
     for sig, exp, obs in found:
         acc.violation(sig, case, expected=exp, observed=obs, standalone=snippet(case))
     ok = not found
-    if ok and twin and not f.name:
-        case2 = dict(case, named=NAME)
+    if ok and not twin and not f.name:
         try:
             fn = E.formula(f, name=NAME)
-        except Exception as e:
+        except Exception:
             acc.outcome("producer-raised:name")
             return ok
-        check(E, acc, fn, case2, twin=False)
+        check(E, acc, fn, dict(case, named=NAME), twin=True)
     return ok
 
 
